@@ -252,7 +252,10 @@ def main():
         {"name": "astfacts", "path": "astfacts/", "serves_properties": sorted(CLAIMED),
          "kind_free_text": "syn-2 based syntax-tree fact extractor (Rust, stable), emits JSON IR of /repo/src on every run"},
         {"name": "rules", "path": "rules/", "serves_properties": sorted(CLAIMED),
-         "kind_free_text": "Python rule layer: forward substitution, bit-exact / algebraic normal forms (sympy), guard dominance, fail-closed floors"},
+         "kind_free_text": "Python rule layer: a normalisation pass over the syntax-tree facts (every binding a name of its own, private renames, new private helpers inlined, "
+                            "zipped channel loops as index loops), then forward substitution, bit-exact / algebraic normal forms (sympy), guard dominance, whole-chain loop recognisers, "
+                            "fail-closed floors, and the generic R-control obligations (no early success exits; no test-only conditional compilation, shadowing items, twin definitions, "
+                            "overridden trait methods, renaming imports or redefined macros anywhere in the crate; reviewed Cargo.toml)"},
     ]
     if os.path.isdir(os.path.join(VERIF, "mirfacts")):
         engines.append({"name": "mirfacts", "path": "mirfacts/", "serves_properties": [p for p in ("C03", "C09", "C16", "C17", "C18", "C13") if p in CLAIMED],
@@ -270,7 +273,9 @@ def main():
         "engines": engines,
         "checks": checks,
         "notes": ("Static analysis only. fix: commits in /repo (genuine defects found by the rules) are listed in known_findings.json as "
-                  "'fixed' entries; they are unguarded as the brief requires. See DESIGN.md."),
+                  "'fixed' entries; they are unguarded as the brief requires. The checks were tested both ways: 197 breaking changes written by independent "
+                  "sub-agents (seeded/), 153 hand-written variants (selftest/catalogue.py), random mutation campaigns (tools/mutation_campaign.py), and 63 "
+                  "behaviour-preserving refactorings that must stay silent (benign/). See DESIGN.md section 10."),
         "not_applicable": na,
     }
     with open(os.path.join(VERIF, "MANIFEST.json"), "w") as f:
